@@ -198,7 +198,7 @@ func (g *gen) genNew() {
 		}
 		cn := n
 		if malformed && r.P(1, 3) {
-			cn = r.PickInt([]int{0, 1, n + 1, 2})
+			cn = r.PickInt([]int{0, 1, n + 1, 2, -1}) // (a negative length only means something for the constant kinds)
 		}
 		if emptyFirst {
 			// exactly one column is empty; whether it comes first depends on the column order
@@ -222,6 +222,17 @@ func (g *gen) genNew() {
 		}
 		if malformed && r.P(1, 6) {
 			kind = "U"
+		}
+		if cn < 0 && !(kind == "CI" || kind == "CF" || kind == "CB" || kind == "CS") {
+			cn = 0
+		}
+		if malformed && (kind == "CI" || kind == "CF" || kind == "CB" || kind == "CS") && r.P(1, 3) {
+			cn = -1 - r.Intn(3) // a constant column asked to have a negative number of rows
+		}
+		if !malformed && c == 0 && r.P(1, 25) {
+			// the only thing wrong with this construction: one constant column with a negative count
+			kind = r.Pick([]string{"CI", "CF", "CB", "CS"})
+			cn = -1 - r.Intn(2)
 		}
 		ct := []string{tx.HexS(name)}
 		switch kind {
